@@ -65,6 +65,15 @@ fn read_hs<A: Pay, B: Pay>(
     if let Err(e) = x.header.header.check() {
         return viol("C01", "live", format!("header read through {}: {}", via, e));
     }
+    // the engine never builds slices longer than 17: anything else is a wrong length, reported
+    // before it turns into a wild read
+    if x.slice.len() > 64 || (x.header.length != x.slice.len() && via != "fat") {
+        return viol(
+            "C10",
+            "thin",
+            format!("{} exposes a slice of {} elements with recorded length {}", via, x.slice.len(), x.header.length),
+        );
+    }
     let mut v = Vec::with_capacity(x.slice.len());
     for (k, e) in x.slice.iter().enumerate() {
         if let Err(m) = e.check() {
